@@ -838,9 +838,9 @@ func TestVerifC16Arbitration(t *testing.T) {
 		return
 	}
 	segs := c16aEnumerated()
-	n, steps, maxJobs := vu.EnvInt("VERIF_C16ARB_N", 700), 26, 14
+	n, steps, maxJobs := vu.EnvInt("VERIF_C16ARB_N", 1200), 26, 14
 	if vu.Thorough() {
-		n, steps, maxJobs = vu.EnvInt("VERIF_C16ARB_N", 12000), 34, 18
+		n, steps, maxJobs = vu.EnvInt("VERIF_C16ARB_N", 9000), 34, 18
 	}
 	for i := 0; i < n; i++ {
 		segs = append(segs, func(out *[]vu.Ev, rng *rand.Rand) { c16aRandomRun(out, rng, steps, maxJobs) })
